@@ -340,14 +340,16 @@ theorem Num.isInt_ofInt (n : Int) (_h : n.natAbs ≤ 2 ^ 53) : (Num.fin n 0).IsI
 /-- what the function receives for a numeric argument -/
 theorem buildArgs_numeric_exact : ∀ {ps : List Ty} {as f : List Val}, buildArgs chk oob ps as = .ok f →
     ∀ (i : Nat) (x : Num), as[i]? = some (.f64 x) →
-      (∀ k n, ps[i]? = some (.int k) → x.IsInt n → k.inRange n = true → f[i]? = some (.int k n)) ∧
-      (ps[i]? = some .f64 → f[i]? = some (.f64 x)) := by
+      (∀ k n, ps[i]? = some (.int k) → x.trunc = some n → k.inRange n = true → f[i]? = some (.int k n)) ∧
+      (ps[i]? = some .f64 → f[i]? = some (.f64 x)) ∧
+      (ps[i]? = some .f32 → f[i]? = some (.f32 x.toF32)) := by
   intro ps
   induction ps with
   | nil =>
     intro as f hb i x ha
-    constructor
+    refine ⟨?_, ?_, ?_⟩
     · intro k n hp; simp at hp
+    · intro hp; simp at hp
     · intro hp; simp at hp
   | cons p0 ps ih =>
     intro as f hb i x ha
@@ -362,18 +364,85 @@ theorem buildArgs_numeric_exact : ∀ {ps : List Ty} {as f : List Val}, buildArg
         simpa using this
       | zero =>
         simp at ha; subst ha
-        constructor
-        · intro k n hp hx hr
+        refine ⟨?_, ?_, ?_⟩
+        · intro k n hp ht hr
           simp at hp; subst hp
-          have ht := Num.trunc_of_isInt hx
           simp [checkArg, convertNumber, ht, hr, Val.ty] at hc
           simp [hc]
         · intro hp
           simp at hp; subst hp
           simp [checkArg, convertNumber, Val.ty] at hc
           simp [hc]
+        · intro hp
+          simp at hp; subst hp
+          simp [checkArg, convertNumber, Val.ty] at hc
+          simp [hc]
+
+/-- a `[]interface{}` parameter passes its argument on unchanged -/
+theorem buildArgs_list_unchanged : ∀ {ps : List Ty} {as f : List Val}, buildArgs chk oob ps as = .ok f →
+    ∀ (i : Nat) a, ps[i]? = some Ty.list → as[i]? = some a → f[i]? = some a := by
+  intro ps
+  induction ps with
+  | nil => intro as f hb i a hp; simp at hp
+  | cons p0 ps ih =>
+    intro as f hb i a hp ha
+    cases as with
+    | nil => simp at ha
+    | cons a0 as =>
+      obtain ⟨v, vs, rfl, hc, hb'⟩ := buildArgs_ok_cons hb
+      cases i with
+      | succ i => simp at hp ha; simpa using ih hb' i a hp ha
+      | zero =>
+        simp at hp ha; subst hp ha
+        rw [checkArg_list] at hc
+        simp at hc; simp [hc]
+
+theorem allAssignable_get : ∀ {vs : List Val} {ts : List Ty}, allAssignable vs ts = true →
+    ∀ (i : Nat) v t, vs[i]? = some v → ts[i]? = some t → valAssignable v t = true := by
+  intro vs
+  induction vs with
+  | nil => intro ts _ i v t hv; simp at hv
+  | cons v0 vs ih =>
+    intro ts h i v t hv ht
+    cases ts with
+    | nil => simp at ht
+    | cons t0 ts =>
+      simp [allAssignable] at h
+      cases i with
+      | zero => simp at hv ht; subst hv ht; exact h.1
+      | succ i => simp at hv ht; exact ih h.2 i v t hv ht
 
 /-! ### the result loop -/
+
+/-- without a trailing `error` every result is converted, position by position -/
+theorem convertResults_no_error : ∀ (vals : List Val) (outs : List Ty),
+    vals.length = outs.length → outs.getLast? ≠ some Ty.error →
+    convertResults vals outs = (List.zipWith convertResultNumber outs vals, none) := by
+  intro vals
+  induction vals with
+  | nil => intro outs hl _; cases outs <;> simp_all [convertResults]
+  | cons v vs ih =>
+    intro outs hl hne
+    cases outs with
+    | nil => simp at hl
+    | cons t ts =>
+      simp at hl
+      cases vs with
+      | nil =>
+        cases ts with
+        | nil =>
+          have : t ≠ Ty.error := by intro h; subst h; simp at hne
+          simp [convertResults, this]
+        | cons _ _ => simp at hl
+      | cons v' vs' =>
+        cases ts with
+        | nil => simp at hl
+        | cons t' ts' =>
+          have hne' : (t' :: ts').getLast? ≠ some Ty.error := by
+            simpa [List.getLast?_cons_cons] using hne
+          have := ih (t' :: ts') (by simpa using hl) hne'
+          simp [convertResults, this]
+
 
 theorem convertResults_trailing_error : ∀ (init : List Val) (outs : List Ty) (e : Val),
     init.length = outs.length →
